@@ -36,6 +36,7 @@ type HarnessEntry struct {
 	Thorough *HarnessCfg `json:"thorough"`
 	Note     string      `json:"note"`
 	Expect   string      `json:"expect"` // "" | "reach-violation" (vacuity witness twin)
+	ReplayCount int      `json:"replay_count"` // native replays of a schedule-dependent counterexample (real scheduler picks select cases at random)
 }
 
 type PropConfig struct {
@@ -467,8 +468,16 @@ func replayNative(dir string, h HarnessEntry, cex *Counterexample, files map[str
 	if h.Pkg == "" {
 		pkgArg = "."
 	}
-	script := fmt.Sprintf("#!/bin/sh\n# replays the counterexample against the real build of /repo\ncd /repo && GOFLAGS=-mod=mod GOPROXY=off GOSUMDB=off GOTOOLCHAIN=local VERIF_VALUES=%s timeout 120 go test -tags verif -vet=off -count=1 -overlay %s -run '^TestVerifReplay$' -v %s\n",
-		filepath.Join(dir, "values.json"), ovFile, pkgArg)
+	extra := "-count=1 "
+	if h.ReplayCount > 1 && cex.Kind != "race" {
+		extra = fmt.Sprintf("-count=%d ", h.ReplayCount)
+	}
+	if cex.Kind == "race" {
+		// the Go race detector applies the same happens-before criterion to the real execution
+		extra = "-race -count=10 "
+	}
+	script := fmt.Sprintf("#!/bin/sh\n# replays the counterexample against the real build of /repo\ncd /repo && GOFLAGS=-mod=mod GOPROXY=off GOSUMDB=off GOTOOLCHAIN=local VERIF_VALUES=%s timeout 300 go test -tags verif -vet=off %s-overlay %s -run '^TestVerifReplay$' -v %s\n",
+		filepath.Join(dir, "values.json"), extra, ovFile, pkgArg)
 	os.WriteFile(filepath.Join(dir, "run.sh"), []byte(script), 0755)
 	cmd := exec.Command("/bin/sh", filepath.Join(dir, "run.sh"))
 	out, _ := cmd.CombinedOutput()
@@ -483,7 +492,7 @@ func replayNative(dir string, h HarnessEntry, cex *Counterexample, files map[str
 	case "deadlock":
 		confirmed = strings.Contains(s, "VERIF-OUTCOME timeout") || strings.Contains(s, "all goroutines are asleep")
 	case "race":
-		confirmed = false
+		confirmed = strings.Contains(s, "WARNING: DATA RACE")
 	}
 	return confirmed, s
 }
